@@ -335,7 +335,8 @@ GenParams == { <<t, <<n>>>> : t \in Topologies \ {"grid", "htree"}, n \in 1..(IF
 W52 == <<5, 2>>
 Catalogue == << Mod("A", Soft, <<4, 1>>, <<2, 2, 2>>, <<>>),
                 Mod("B", Soft, <<4, 1>>, <<>>, << <<2, 0, 4, 2, "dsp">> >>),
-                Mod("S", Soft, <<6, 1>>, <<>>, << <<0, 2, 2, 4, Ground>>, <<2, 2, 3, 4, Ground>> >>),
+                \* (declared area 5, rectangles 4 + 2: the area of a soft module is what it declares, not what its rectangles cover)
+                Mod("S", Soft, <<5, 1>>, <<>>, << <<0, 2, 2, 4, Ground>>, <<2, 2, 3, 4, Ground>> >>),
                 Mod("H", Hard, <<0, 1>>, <<>>, << <<4, 0, 6, 2, Ground>> >>),
                 Mod("P", Flip, <<0, 1>>, <<>>, << <<4, 2, 6, 4, Ground>>, <<4, 4, 5, 5, Ground>> >>),
                 Mod("F", Fixed, <<0, 1>>, <<>>, << <<6, 0, 8, 2, Ground>> >>),
